@@ -18,6 +18,7 @@ import (
 type QueryWorld struct {
 	cfg  Config
 	h    *rosmar.Bucket
+	h2   *rosmar.Bucket // a second handle: every query is also asked through it
 	a, b *rosmar.Collection
 	step int
 }
@@ -29,6 +30,8 @@ func init() {
 		w.h, err = rosmar.OpenBucket(BucketURL(cfg, "b1"), "b1", rosmar.CreateOrOpen)
 		must(err)
 		w.a, w.b = coll(w.h, NameA), coll(w.h, NameB)
+		w.h2, err = rosmar.OpenBucket(BucketURL(cfg, "b1"), "b1", rosmar.CreateOrOpen)
+		must(err)
 		return w
 	})
 }
@@ -37,7 +40,10 @@ func (w *QueryWorld) Bucket() *rosmar.Bucket { return w.h }
 
 func (w *QueryWorld) Alphabet(tier int) []string {
 	ops := []string{"A.Set/k/1", "A.Set/k/2", "A.SetNoV/j", "A.Set/j/1", "B.Set/k/3", "B.Set/j/raw", "A.Delete/k", "A.Delete/j", "B.Delete/k", "A.SetXattrs/k", "B.SetXattrs/j",
-		"A.WriteTombstone/k", "A.Add/k", "A.SetRawNil/j", "A.AddRawNil/k", "A.UpdateDelete/k", "A.DeleteWithXattrs/k", "A.Resurrect/k", "Purge", "A.SetWithMeta/j", "A.DeleteWithMeta/j", "A.SetEmpty/j"}
+		"A.WriteTombstone/k", "A.Add/k", "A.SetRawNil/j", "A.AddRawNil/k", "A.UpdateDelete/k", "A.DeleteWithXattrs/k", "A.Resurrect/k", "Purge", "A.SetWithMeta/j", "A.DeleteWithMeta/j", "A.SetEmpty/j", "DropRecreate/A", "DropRecreate/A/2"}
+	if w.cfg.Disk {
+		ops = append(ops, "Reopen")
+	}
 	return ops
 }
 
@@ -96,6 +102,23 @@ func (w *QueryWorld) Apply(op string) (string, []Violation) {
 		_, err = cl.WriteResurrectionWithXattrs(ctx, "k", 0, []byte(`{"v":6,"t":"res"}`), map[string][]byte{"_s": []byte(`{"n":6}`)}, nil)
 	case "Purge":
 		_, err = w.h.PurgeTombstones()
+	case "DropRecreate":
+		// through the first handle, or dropped through the second and created again through the first
+		dropper := w.h
+		if len(parts) > 2 {
+			dropper = w.h2
+		}
+		err = dropper.DropDataStore(NameA)
+		w.a = coll(w.h, NameA)
+	case "Reopen":
+		w.h.Close(ctx)
+		w.h2.Close(ctx)
+		vrt.Quiesce()
+		w.h, err = rosmar.OpenBucket(BucketURL(w.cfg, "b1"), "b1", rosmar.ReOpenExisting)
+		must(err)
+		w.h2, err = rosmar.OpenBucket(BucketURL(w.cfg, "b1"), "b1", rosmar.ReOpenExisting)
+		must(err)
+		w.a, w.b = coll(w.h, NameA), coll(w.h, NameB)
 	case "SetWithMeta":
 		c0 := cur("j")
 		err = cl.SetWithMeta(ctx, "j", c0, c0+0x20000+uint64(w.step), 0, []byte(`{"_s":{"n":7}}`), []byte(`{"v":7,"t":"meta"}`), sgbucket.FeedDataTypeJSON)
@@ -110,7 +133,9 @@ func (w *QueryWorld) Apply(op string) (string, []Violation) {
 	}
 	w.checkQueries(c, w.a, "sc.A")
 	w.checkQueries(c, w.b, "sc.B")
-	if n := rosmar.VerifInUse(w.h); n != 0 {
+	w.checkQueries(c, coll(w.h2, NameA), "sc.A")
+	w.checkQueries(c, coll(w.h2, NameB), "sc.B")
+	if n := rosmar.VerifInUse(w.h) + rosmar.VerifInUse(w.h2); n != 0 {
 		c.add("C19", "connection-leak", "%d connections still checked out after the query iterators were closed", n)
 	}
 	return result, c.out
@@ -262,6 +287,7 @@ func (w *QueryWorld) Canon() string {
 	for _, r := range d.Docs {
 		fmt.Fprintf(&b, "%s/%s:%q/%v x=%q tomb=%d;", r.Collection, r.Key, r.Value, r.HasValue, r.Xattrs, r.Tombstone)
 	}
+	fmt.Fprintf(&b, "caches=%s/%s", CacheState(w.h), CacheState(w.h2))
 	return b.String()
 }
 
